@@ -34,6 +34,8 @@ const token = "c13-token"
 var (
 	run      *h.Run
 	srv      *h.Server
+	srvAuto  *h.Server // tcp groups with a server-chosen port get a server (and port range) of their own,
+	bindAuto int       // so that the server's random choice cannot collide with ports picked for other cases
 	pa       *h.PortAlloc
 	httpPort int
 	muxPort  int
@@ -54,7 +56,7 @@ func main() {
 	pa = h.Ports(prop)
 	ps := pa.Block(3)
 	bindPort, httpPort, muxPort = ps[0], ps[1], ps[2]
-	loPort, hiPort = 23100, 23999
+	loPort, hiPort = 23100, 23899
 	var err error
 	srv, err = h.StartServerText(prop, fmt.Sprintf(`
 bindAddr = "127.0.0.1"
@@ -69,6 +71,18 @@ allowPorts = [{start=%d,end=%d}]
 		fmt.Fprintln(os.Stderr, "server:", err)
 		os.Exit(h.ExitHarnessError)
 	}
+	bindAuto = pa.Get()
+	srvAuto, err = h.StartServerText(prop, fmt.Sprintf(`
+bindAddr = "127.0.0.1"
+bindPort = %d
+auth.token = "%s"
+userConnTimeout = 5
+allowPorts = [{start=23900,end=23999}]
+`, bindAuto, token))
+	if err != nil {
+		fmt.Fprintln(os.Stderr, "server:", err)
+		os.Exit(h.ExitHarnessError)
+	}
 	nHist := run.N(100, 1000)
 	nRace := run.N(80, 600)
 	run.Parallel(nHist+nRace, 10, func(c *h.Case) {
@@ -79,6 +93,7 @@ allowPorts = [{start=%d,end=%d}]
 		}
 	})
 	srv.Close()
+	srvAuto.Close()
 	run.Finish(30)
 }
 
@@ -102,6 +117,28 @@ type group struct {
 	real   int // port reported by the server (tcp kinds)
 }
 
+// S is the server this group lives on.
+func (g *group) S() *h.Server {
+	if g.kind == "tcp-auto" {
+		return srvAuto
+	}
+	return srv
+}
+
+func (g *group) bind() int {
+	if g.kind == "tcp-auto" {
+		return bindAuto
+	}
+	return bindPort
+}
+
+func (g *group) allowed() (int, int) {
+	if g.kind == "tcp-auto" {
+		return 23900, 23999
+	}
+	return loPort, hiPort
+}
+
 func newGroup(c *h.Case, kind string) *group {
 	g := &group{c: c, kind: kind, name: fmt.Sprintf("c%d.g", c.Idx), key: fmt.Sprintf("k%d", c.Idx), domain: fmt.Sprintf("c%d.group.test", c.Idx)}
 	if kind == "tcp-fixed" {
@@ -119,7 +156,7 @@ func pickPort() int {
 	for i := 0; i < 2000; i++ {
 		p := nextPort
 		nextPort++
-		if nextPort > 23899 {
+		if nextPort > 23890 {
 			nextPort = 23100
 		}
 		l, err := net.Listen("tcp", fmt.Sprintf("127.0.0.1:%d", p))
@@ -141,7 +178,7 @@ func (g *group) newProxyMsg(pname, key string, diffEndpoint bool) *msg.NewProxy 
 			if g.real != 0 {
 				m.RemotePort = g.real + 1
 			} else {
-				m.RemotePort = 23950
+				m.RemotePort = 23899
 			}
 		}
 	case "http":
@@ -169,7 +206,7 @@ func dialMember(g *group, n int) (*member, error) {
 	} else {
 		wh = h.IdentBackend(id, token, false, false, nil)
 	}
-	p, err := h.DialPeer(h.PeerOpts{ServerPort: bindPort, TCPMux: true, Token: token, AutoWork: true, WorkHandler: wh})
+	p, err := h.DialPeer(h.PeerOpts{ServerPort: g.bind(), TCPMux: true, Token: token, AutoWork: true, WorkHandler: wh})
 	if err != nil || !p.LoggedIn() {
 		if p != nil {
 			p.Close()
@@ -253,7 +290,7 @@ func (g *group) probe() (who string, refused bool, err error) {
 
 // snapshotMembers returns the member count (tcp, tcpmux) or names (http) the server accounts for this group.
 func (g *group) snapshotMembers() (n int, exists bool) {
-	s := srv.Snapshot()
+	s := g.S().Snapshot()
 	switch g.kind {
 	case "tcp-fixed", "tcp-auto":
 		n, exists = s.TCPGroups[g.name]
@@ -284,7 +321,7 @@ func (g *group) ledger(when string, live []*member) {
 		}
 		if g.kind == "tcp-fixed" || g.kind == "tcp-auto" {
 			if g.real != 0 {
-				if owner, used := srv.Snapshot().TCPPorts.Used[g.real]; used && strings.HasPrefix(owner, strings.TrimSuffix(g.name, "g")) {
+				if owner, used := g.S().Snapshot().TCPPorts.Used[g.real]; used && strings.HasPrefix(owner, strings.TrimSuffix(g.name, "g")) {
 					c.Violation("group-port-not-released", "%s %s: port %d still accounted to %s after the last member left", g.kind, when, g.real, owner)
 				}
 			}
@@ -359,9 +396,9 @@ func (g *group) leave(m *member) error {
 	return err
 }
 
-func waitSessionGone(rid string) bool {
+func waitSessionGone(g *group, rid string) bool {
 	return h.Eventually(10*time.Second, func() bool {
-		for _, s := range srv.Snapshot().Sessions {
+		for _, s := range g.S().Snapshot().Sessions {
 			if s.RunID == rid {
 				return false
 			}
@@ -435,8 +472,8 @@ func historyCase(c *h.Case) {
 				c.Violation("group-reported-port-differs", "tcp group asked for port %d, reply says %s", g.port, resp.RemoteAddr)
 			}
 			if g.kind == "tcp-auto" {
-				if g.real < loPort || g.real > hiPort {
-					c.Violation("group-port-outside-allowed-set", "tcp group with server-chosen port reports %s, allowed %d-%d", resp.RemoteAddr, loPort, hiPort)
+				if lo, hi := g.allowed(); g.real < lo || g.real > hi {
+					c.Violation("group-port-outside-allowed-set", "tcp group with server-chosen port reports %s, allowed %d-%d", resp.RemoteAddr, lo, hi)
 				}
 				if len(live) == 0 && firstPort != 0 && g.real != firstPort {
 					run.Count("auto_port_changed_on_recreate", 1) // reserved-port reuse is C09's business; counted only
@@ -478,7 +515,7 @@ func historyCase(c *h.Case) {
 			rid := m.peer.RunID
 			m.peer.Close()
 			m.in = false
-			if !waitSessionGone(rid) {
+			if !waitSessionGone(g, rid) {
 				c.Violation("session-not-removed", "session %s still in the table 10 s after its connection closed", rid)
 				return
 			}
